@@ -21,7 +21,8 @@ RULE = ("/proc/meminfo drawn as a list of kernel-formatted lines: EXHAUSTIVE ove
         "plus a malformed byte stream (dropped/blank/duplicated/non-numeric lines, signs, underscores, CRLF) "
         "compared with the model only; LIVE: the running kernel's /proc/meminfo, /proc/zoneinfo, /proc/vmstat read once, parsed into the Spec record, printed back by the "
         "Coq kernel printers and compared byte for byte (mismatch = harness error), then model = psutil = spec on that snapshot (also with MemAvailable removed / zeroed so "
-        "that the estimate runs over the real watermarks) and psutil over the real /proc (timing-free facts). Non-trivial = at least MemTotal and MemFree (or one swap source) present; distinct = "
+        "that the estimate runs over the real watermarks) and psutil over the real /proc (timing-free facts); BIG: zoneinfo of a 48-CPU 5-zone machine (42 KB, generated "
+        "inside Coq) with byte offsets 8192/16384/32768 aligned into / onto the ends of a low line's digits, meminfo and vmstat whose decisive lines lie beyond 32 KiB. Non-trivial = at least MemTotal and MemFree (or one swap source) present; distinct = "
         "distinct canonical case hash.")
 TRUSTED = ["kernel printers k_meminfo/k_zoneinfo/k_vmstat: validated byte for byte against the running kernel's files on every run (live cases); other kernel versions by transcription",
            "correspondence harness props/C08.py + pv/ (fake /proc tree, patched cext.linux_sysinfo and _pslinux.PAGESIZE, captured warnings)",
@@ -429,6 +430,39 @@ def _live_cases():
     return cases
 
 
+# ------------------------------------------------------------------ files beyond the 32 KiB read buffer
+BIG_MEM = [["MemTotal:", 7, "100000000", " kB"], ["MemFree:", 8, "50000000", " kB"], ["Buffers:", 8, "1000", " kB"], ["Cached:", 9, "2000000", " kB"],
+           ["Active(file):", 3, "3000000", " kB"], ["Inactive(file):", 1, "2500000", " kB"], ["SReclaimable:", 4, "400000", " kB"]]
+
+
+def _big_cases(rng, tier):
+    """/proc/zoneinfo of a 48-CPU, 5-zone machine (about 42 KB, built inside Coq by Spec.big_zoneinfo from a seed) with a filler line
+    that moves byte offset 8192 / 16384 / 32768 (buffer sizes in use) into the digits of a 'low' line, onto its first / last digit or exactly
+    onto its end; meminfo and vmstat whose decisive lines lie beyond 32 KiB"""
+    out = []
+    plan = [(1, 3, 32768), (2, 3, 32768), (3, 3, 32768), (4, 3, 32768), (1, 0, 8192), (2, 1, 16384)]
+    if tier == "thorough":
+        plan += [(m, j, at) for m in (1, 2, 3, 4) for j, at in ((2, 32768), (1, 16384), (0, 8192), (3, 30000))]
+    for mode, j, at in plan:
+        out.append({"kind": "vm", "cls": "big-zoneinfo-mode%d" % mode, "ps": 4096, "mem": BIG_MEM, "zone": "big",
+                    "big": {"nodes": 1, "zones": 5, "cpus": 48, "seed": rng.randint(0, 10 ** 6), "mode": mode, "j": j, "at": at}})
+    out.append({"kind": "swap", "cls": "big-meminfo-vmstat", "ps": 4096, "sysinfo": [7, 3, 1024], "vmstat": "big", "mem": "big",
+                "bigswap": {"nm": 110, "w": 300, "nv": 110,
+                            "mtail": [["SwapTotal:", 5, str(rng.randint(1000, 10 ** 7)), " kB"], ["SwapFree:", 6, str(rng.randint(0, 1000)), " kB"]],
+                            "vtail": [["pswpin", str(rng.randint(1, 10 ** 6))], ["pgfault", "9"], ["pswpout", str(rng.randint(1, 10 ** 6))]]}})
+    out.append({"kind": "vm", "cls": "big-meminfo", "ps": 4096, "zone": None, "mem": "big",
+                "bigmem": {"nm": 110, "w": 300, "mtail": [["MemTotal:", 7, "1000000", " kB"], ["MemFree:", 8, "400000", " kB"], ["MemAvailable:", 3, "300000", " kB"],
+                                                          ["Buffers:", 8, "1000", " kB"], ["Cached:", 9, "20000", " kB"], ["Shmem:", 3, "5", " kB"]]}})
+    return out
+
+
+def _spread(cases, big):
+    """put every expensive case into a shard of its own (the Coq evaluation runs one process per shard)"""
+    for i, c in enumerate(big):
+        cases.insert(min(len(cases), i * SHARD + 20), c)
+    return cases
+
+
 RAW_MEM = [
     b"", b"\n", b"MemTotal: 100 kB\n", b"MemFree: 100 kB\n", b"MemTotal: 100 kB\nMemFree: 10 kB\n",
     b"MemTotal: 100 kB\nMemFree: 10 kB\n\n", b"MemTotal: 100 kB\nMemFree: 10 kB\nBuffers:\n",
@@ -454,9 +488,9 @@ RAW_VMSTAT = [None, b"", b"pswpin 5\npswpout 6\n", b"pswpin 5\n", b"pswpout 6\n"
 
 
 def gen_cases(rng, tier):
-    n_rand = {"quick": 300, "thorough": 8000, "search": 700}[tier]
-    n_swap = {"quick": 240, "thorough": 6000, "search": 400}[tier]
-    n_raw = {"quick": 120, "thorough": 2500, "search": 200}[tier]
+    n_rand = {"quick": 210, "thorough": 8000, "search": 700}[tier]
+    n_swap = {"quick": 170, "thorough": 6000, "search": 400}[tier]
+    n_raw = {"quick": 90, "thorough": 2500, "search": 200}[tier]
     reps = {"quick": 1, "thorough": 6, "search": 1}[tier]
     amodes = ["absent", "zero", "value", "gt", "eq"]
     zmodes = ["absent", "empty", "zones", "zones", "bigwm"]
@@ -529,6 +563,8 @@ def gen_cases(rng, tier):
             vi = rng.choice(RAW_VMSTAT)
             cases.append({"kind": "swapraw", "cls": "swap-raw", "ps": rng.choice([4096, 4096, 16384, 65536]), "meminfo": mi.hex(), "sysinfo": [rng.choice([0, 9, 77]), rng.choice([0, 5]), rng.choice([1, 4096])],
                           "vmstat": None if vi is None else vi.hex()})
+    if tier != "search":
+        cases = _spread(cases, _big_cases(rng, tier))
     return cases
 
 
@@ -603,6 +639,17 @@ def _optb(hexs):
 def coq_term(case):
     k = case["kind"]
     L = G.bo(LENIENT)
+    if k == "vm" and case.get("big"):
+        b = case["big"]
+        return "run_vm_big %s %s %s %s %s %s %s %s %s %s" % (L, G.z(case["ps"]), _mem_term(case["mem"]), G.nat(b["nodes"]), G.nat(b["zones"]), G.nat(b["cpus"]),
+                                                             G.z(b["seed"]), G.nat(b["mode"]), G.nat(b["j"]), G.z(b["at"]))
+    if k == "swap" and case.get("bigswap"):
+        b = case["bigswap"]
+        return "run_swap_big %s %s %s %s %s %s %s %s" % (L, G.z(case["ps"]), G.nat(b["nm"]), G.nat(b["w"]), _mem_term(b["mtail"]), _si(case["sysinfo"]),
+                                                         G.nat(b["nv"]), _vm_term(b["vtail"])[6:-1])
+    if k == "vm" and case.get("bigmem"):
+        b = case["bigmem"]
+        return "run_vm_bigmem %s %s %s %s %s %s" % (L, G.z(case["ps"]), G.nat(b["nm"]), G.nat(b["w"]), _mem_term(b["mtail"]), _zone_term(case["zone"]))
     if case.get("live") is not None and k in ("vm", "swap"):
         def real(name):
             h = case["live"].get(name)
@@ -669,12 +716,44 @@ def _live_struct(case, raw):
     return out
 
 
+def _text(lines):
+    """JL of JC "<line text>" [] (see Run.jlines) -> the file's bytes"""
+    return B("".join(x["t"] if isinstance(x, dict) else {True: "True", False: "False", None: "None"}[x] for x in lines).encode("latin-1"))
+
+
+def _big_struct(case, raw):
+    raw = list(raw)
+    info = raw.pop()
+    if raw[3] is None:
+        raise RuntimeError("C08 big: generated file outside the specification's domain: %r" % (case,))
+    if case.get("big"):
+        b = case["big"]
+        raw[1] = _text(raw[1])
+        n, lows, span = info
+        if n != len(unB(raw[1])) or n <= 32768:
+            raise RuntimeError("C08 big: zoneinfo has %d bytes (text %d), expected more than 32768" % (n, len(unB(raw[1]))))
+        want = {0: None, 1: span[0] + 1, 2: span[1], 3: span[0], 4: span[1] - 2}[b["mode"]] if span else None
+        if b["mode"] and want != b["at"]:
+            raise RuntimeError("C08 big: offset %d not aligned as requested (mode %d): digits at %r" % (b["at"], b["mode"], span))
+    elif case.get("bigswap"):
+        raw[0], raw[1] = _text(raw[0]), _text(raw[1])
+        if min(info) <= 32768:
+            raise RuntimeError("C08 big: meminfo/vmstat sizes %r, expected more than 32768" % (info,))
+    else:
+        raw[0] = _text(raw[0])
+        if info[0] <= 32768:
+            raise RuntimeError("C08 big: meminfo size %r, expected more than 32768" % (info,))
+    return raw
+
+
 def coq_struct(case, raw):
     k = case["kind"]
     if k == "livereal":
         return {"model": None, "spec": None}
     if case.get("live") is not None:
         raw = _live_struct(case, raw)
+    if case.get("big") or case.get("bigswap") or case.get("bigmem"):
+        raw = _big_struct(case, raw)
     if k == "vm":
         return {"printed": [raw[0], raw[1]], "model": _canon_vm(raw[2]), "spec": None if raw[3] is None else _canon_vm(raw[3]),
                 "junk": raw[4], "float_exact": raw[5]}
